@@ -506,6 +506,7 @@ type Contract struct {
 	Asserts  []Clause
 	Assumes  []Clause // stated mathematical facts, assumed when verifying the body; listed in the evidence
 	AtCalls  []AtCall // ghost assertions checked in the state just before a call to a named callee
+	Dynamic  map[string]string // parameter of interface type -> concrete type it is verified for (devirtualised method calls)
 	Strings  bool     // use the SMT string theory for Go strings in this function's conditions
 	Opaque   []string // spec functions treated as uninterpreted in this function's conditions
 	Footprint []*Node // objects whose fields (of the maps in Modifies) may change; all others keep theirs
@@ -882,6 +883,15 @@ func (cs *ContractSet) LoadContractFile(path, pkgPath string) error {
 				return fail(err)
 			}
 			cur.AtCalls = append(cur.AtCalls, AtCall{Callee: strings.TrimSpace(rest[:k]), Clause: cl})
+		case "dynamic":
+			// dynamic <param> <Type>: verify for this dynamic type of an interface parameter
+			if cur == nil || len(fields) != 3 {
+				return fail(fmt.Errorf("dynamic needs: dynamic <param> <Type>"))
+			}
+			if cur.Dynamic == nil {
+				cur.Dynamic = map[string]string{}
+			}
+			cur.Dynamic[fields[1]] = fields[2]
 		case "strings":
 			if cur == nil {
 				return fail(fmt.Errorf("strings outside func"))
